@@ -603,9 +603,9 @@ func (U *Universe) emitDeclsWith(bundleDecls string) string {
 		fmt.Fprintf(&b, "(assert (forall ((x %[1]s)) (! (= (%[1]s.cat %[1]s.empty x) x) :pattern ((%[1]s.cat %[1]s.empty x)))))\n", s)
 		fmt.Fprintf(&b, "(assert (forall ((x %[1]s) (lo Int) (hi Int)) (! (=> (and (<= 0 lo) (<= lo hi) (<= hi (%[1]s.len x))) (= (%[1]s.len (%[1]s.sub x lo hi)) (- hi lo))) :pattern ((%[1]s.sub x lo hi)))))\n", s)
 		fmt.Fprintf(&b, "(assert (forall ((x %[1]s) (lo Int) (hi Int) (i Int)) (! (=> (and (<= 0 lo) (<= lo hi) (<= hi (%[1]s.len x)) (<= 0 i) (< i (- hi lo))) (= (%[1]s.at (%[1]s.sub x lo hi) i) (%[1]s.at x (+ lo i)))) :pattern ((%[1]s.at (%[1]s.sub x lo hi) i)))))\n", s)
-		fmt.Fprintf(&b, "(assert (forall ((x %[1]s)) (! (= (%[1]s.sub x 0 (%[1]s.len x)) x) :pattern ((%[1]s.sub x 0 (%[1]s.len x))))))\n", s)
+		fmt.Fprintf(&b, "(assert (forall ((x %[1]s) (hi Int)) (! (=> (= hi (%[1]s.len x)) (= (%[1]s.sub x 0 hi) x)) :pattern ((%[1]s.sub x 0 hi)))))\n", s)
 		fmt.Fprintf(&b, "(assert (forall ((x %[1]s) (i Int)) (! (=> (and (<= 0 i) (< i (%[1]s.len x))) (= (%[1]s.sub x 0 (+ i 1)) (%[1]s.snoc (%[1]s.sub x 0 i) (%[1]s.at x i)))) :pattern ((%[1]s.sub x 0 (+ i 1))))))\n", s)
-		fmt.Fprintf(&b, "(assert (forall ((x %[1]s)) (! (= (%[1]s.sub x 0 0) %[1]s.empty) :pattern ((%[1]s.sub x 0 0)))))\n", s)
+		fmt.Fprintf(&b, "(assert (forall ((x %[1]s) (hi Int)) (! (=> (= hi 0) (= (%[1]s.sub x 0 hi) %[1]s.empty)) :pattern ((%[1]s.sub x 0 hi)))))\n", s)
 		U.Sigs[s+".len"] = &Sig{Name: s + ".len", Args: []string{s}, Res: "Int"}
 		U.Sigs[s+".at"] = &Sig{Name: s + ".at", Args: []string{s, "Int"}, Res: e}
 		U.Sigs[s+".nil"] = &Sig{Name: s + ".nil", Res: s}
